@@ -98,7 +98,8 @@ Record cst := {
   k_ext : bool;           (* trigger flag of the last row delivered *)
   k_last : list Z;        (* per readout word: feedback (flags cleared) of the last frame delivered *)
   k_scale : list float;   (* per readout word: error scale of its feedback channel *)
-  k_realigned : bool      (* the block that reports the loss has been seen *)
+  k_realigned : bool;     (* the block that reports the loss has been seen *)
+  k_lost : bool           (* bytes were released without being delivered and the loss is not reported yet *)
 }.
 
 (* a run starts with the frame number [next] and the trigger level [ext] (0 and low for the first run of a
@@ -107,7 +108,7 @@ Definition start_cst (g : geom) (next : Z) (ext : bool) : cst :=
   {| k_D := 0; k_R := 0; k_fpos := 0; k_next := next; k_ext := ext;
      k_last := map (fun _ => 0) (zrange 0 (nwords g));
      k_scale := map (fun _ => 0%float) (zrange 0 (nwords g));
-     k_realigned := false |}.
+     k_realigned := false; k_lost := false |}.
 Definition init_cst (g : geom) : cst := start_cst g 0 false.
 
 Definition zsum (l : list Z) : Z := fold_right Z.add 0 l.
@@ -139,14 +140,19 @@ Definition check_block (c : cfg) (S : list Z) (st : cst) (rels : list Z) (b : bl
       match c_gap c with
       | Some (pos, ph) =>
           if k_realigned st then Some (k_fpos st, true)
-          else if k_fpos st + m * fs <=? (pos / fs) * fs then Some (k_fpos st, false) else None
+          else if negb (k_lost st) && (k_fpos st + m * fs <=? (pos / fs) * fs) then Some (k_fpos st, false) else None
       | None => Some (k_fpos st, false)
       end
     else if 0 <? b_dropped b then
       match c_gap c with
       | Some (pos, ph) =>
-          if negb (k_realigned st) && (k_fpos st =? (pos / fs) * fs)
-          then Some (next_boundary g pos ph, true) else None
+          (* the block that reports the loss: it starts on a frame boundary of the part behind the cut, and
+             everything between the last delivered frame and that boundary is released with it (the reader may
+             give up whole frames around the cut; it may not deliver them wrongly, twice, or stay silent) *)
+          let start := k_R st + zsum rels - m * fs in
+          if negb (k_realigned st) && (k_fpos st <=? (pos / fs) * fs) && (k_R st <=? start) &&
+             (next_boundary g pos ph <=? start) && ((start - next_boundary g pos ph) mod fs =? 0)
+          then Some (start, true) else None
       | None => None
       end
     else None in
@@ -163,7 +169,7 @@ Definition check_block (c : cfg) (S : list Z) (st : cst) (rels : list Z) (b : bl
       if shape && frames_ok && first_ok && words_ok && ext_ok && rel_ok
       then Some {| k_D := k_D st; k_R := R'; k_fpos := start + m * fs; k_next := b_first b + m;
                    k_ext := last_flag (k_ext st) flags; k_last := last'; k_scale := k_scale st;
-                   k_realigned := realigned |}
+                   k_realigned := realigned; k_lost := false |}
       else None
   end.
 
@@ -186,9 +192,22 @@ Definition check_step (c : cfg) (S : list Z) (st : cst) (o : op) (r : opres) : o
   | OChunk bytes _, RTick rels blk =>
       let st1 := {| k_D := k_D st + zlen bytes; k_R := k_R st; k_fpos := k_fpos st; k_next := k_next st;
                     k_ext := k_ext st; k_last := k_last st; k_scale := k_scale st;
-                    k_realigned := k_realigned st |} in
+                    k_realigned := k_realigned st; k_lost := k_lost st |} in
       let st2 := match blk with
-                 | None => if zlen rels =? 0 then Some st1 else None     (* no block: nothing may be released *)
+                 | None =>
+                     if zlen rels =? 0 then Some st1          (* no block: nothing may be released ... *)
+                     else match c_gap c with
+                          | Some (pos, ph) =>
+                              (* ... except ONCE, by a read that reaches behind the cut: those bytes count as
+                                 lost, and the next block must report the loss *)
+                              if negb (k_realigned st) && negb (k_lost st) && (pos <? k_D st1) &&
+                                 (k_R st + zsum rels <=? k_D st1)
+                              then Some {| k_D := k_D st1; k_R := k_R st + zsum rels; k_fpos := k_fpos st;
+                                           k_next := k_next st; k_ext := k_ext st; k_last := k_last st;
+                                           k_scale := k_scale st; k_realigned := false; k_lost := true |}
+                              else None
+                          | None => None
+                          end
                  | Some b => check_block c S st1 rels b
                  end in
       match st2 with
@@ -200,7 +219,7 @@ Definition check_step (c : cfg) (S : list Z) (st : cst) (o : op) (r : opres) : o
         Some (if ok then {| k_D := k_D st; k_R := k_R st; k_fpos := k_fpos st; k_next := k_next st;
                             k_ext := k_ext st; k_last := k_last st;
                             k_scale := set_scales g (c_nsamp c) chans fracs (k_scale st);
-                            k_realigned := k_realigned st |} else st)
+                            k_realigned := k_realigned st; k_lost := k_lost st |} else st)
       else None
   | _, _ => None                                           (* a crash, or an answer of the wrong kind *)
   end.
@@ -314,9 +333,10 @@ Definition last_cleared (prev : Z) (fbs : list Z) : Z := fold_left (fun _ f => m
 
 (* ---------- the full statement about lost bytes (FALSE of the unchanged reader, see the _refuted theorem) ---------- *)
 (* Whatever the position and the length of the loss (in bytes), on a delivery that is well-formed on both sides
-   of the cut the system's answers pass the checker: every whole frame in front of the cut and every frame behind
-   the next frame boundary appears exactly once in the right channels, the first block behind the cut reports the
-   loss, frame numbers never go backwards, nothing crashes. *)
+   of the cut the system's answers pass the checker: whole frames in front of the cut are delivered in order, then
+   - after at most one read released without delivery - a block that reports the loss and starts on a frame
+   boundary behind the cut, from where every frame appears exactly once in the right channels; nothing is
+   delivered wrongly or twice, frame numbers never go backwards, nothing crashes. *)
 Definition realign_after_gap_statement (sys : cfg -> list op -> list opres) : Prop :=
   forall c ops, c_gap c <> None -> stream_wf c (stream_of ops) = true -> stamps_increasing ops = true ->
     C04_check c (combine ops (sys c ops)) = true.
